@@ -26,7 +26,8 @@
    domain index, adjacent domains merged); it exists to decide legality of opens,
    writes and the index-delete guard the way the code does.                         *)
 EXTENDS Integers, FiniteSets, Sequences, TLC
-CONSTANTS T, Writers, MaxLen, MaxId, ChanSets
+CONSTANTS T, Writers, MaxLen, MaxId, ChanSets,
+          EarlyStart   \* TRUE: a writer may start before its first sample (domain start between samples)
 Chan == {"I", "D", "V"}
 DataChan == {"D", "V"}
 Time == 0..(2*T+1)
@@ -97,16 +98,20 @@ DoCommit(w, cm, dm, times) ==
                          ELSE dm[c]] >>
 
 \* Write of explicit sample times (index-writing writer) or of n samples (data-only)
-Write(w, times) ==
+WriteGuard(w, times) ==
   /\ wr[w].open /\ times # {} /\ Cardinality(times) <= MaxLen /\ nextId <= MaxId
   /\ IF "I" \in wr[w].chans
      THEN /\ times \subseteq Even
           /\ \A t \in times : t > wr[w].hwm /\ t >= wr[w].start
+          \* unless EarlyStart, the first sample sits exactly at the writer's start
+          /\ (EarlyStart \/ wr[w].n > 0 \/ Min(times) = wr[w].start)
      ELSE /\ times = DataOnlyTimes(w, Cardinality(times))
           /\ wr[w].start \in Samples("I")
           /\ Max(times) < EffEnd(wr[w].start)
   \* legality: the writer's range must not run into another domain of its channels
   /\ \A c \in wr[w].chans : \A d \in Others(w, c) : ~Overlap(d, wr[w].start, Max(times) + 1)
+Write(w, times) ==
+  /\ WriteGuard(w, times)
   /\ LET pairs == {<<t, nextId>> : t \in times}
          w2 == [wr[w] EXCEPT !.hwm = Max(times), !.buf = @ \cup pairs, !.n = @ + Cardinality(times)]
      IN IF wr[w].auto
